@@ -48,3 +48,31 @@ Theorem C17_split_with_plane_pieces : forall l pl,
     sub3 (on3 l u) (lr3p l) =3= smul3 u (lr3v l) /\ sub3 (LineSegment3D_p2 l) (on3 l u) =3= smul3 (1 - u) (lr3v l).
 Proof. exact split_with_plane_pieces. Qed.
 Print Assumptions C17_split_with_plane_pieces.
+
+(* (iii) the source loop itself (while parameter <= 1, translated with explicit fuel) in exact arithmetic: for EVERY n >= 1 it
+   returns the start point followed by n points at the parameters k/n, k = 1..n; the repair branch never fires. *)
+From LBG Require Import G11_sub C17_subdiv.
+
+Theorem C17_segment2d_subdivide_evenly_exact : forall fuel self n, (1 <= n)%Z -> (Z.to_nat n < fuel)%nat ->
+  LineSegment2D_subdivide_evenly fuel self n
+  = lr2p self :: map (LineSegment2D_point_at self) (params (1 / inject_Z n) (Z.to_nat n) (1 / inject_Z n)).
+Proof. exact seg2_subdivide_evenly_exact. Qed.
+Print Assumptions C17_segment2d_subdivide_evenly_exact.
+
+Theorem C17_segment3d_subdivide_evenly_exact : forall fuel self n, (1 <= n)%Z -> (Z.to_nat n < fuel)%nat ->
+  LineSegment3D_subdivide_evenly fuel self n
+  = lr3p self :: map (LineSegment3D_point_at self) (params (1 / inject_Z n) (Z.to_nat n) (1 / inject_Z n)).
+Proof. exact seg3_subdivide_evenly_exact. Qed.
+Print Assumptions C17_segment3d_subdivide_evenly_exact.
+
+Theorem C17_subdivision_parameters_are_k_over_n : forall n, (1 <= n)%Z ->
+  length (params (1 / inject_Z n) (Z.to_nat n) (1 / inject_Z n)) = Z.to_nat n /\
+  forall j, (j < Z.to_nat n)%nat ->
+    (nth j (params (1 / inject_Z n) (Z.to_nat n) (1 / inject_Z n)) 0 == inject_Z (Z.of_nat (S j)) / inject_Z n)%Q.
+Proof. exact subdivide_params. Qed.
+Print Assumptions C17_subdivision_parameters_are_k_over_n.
+
+Example C17_exact_nonvacuous :
+  map (fun p => (v2x p, v2y p)) (LineSegment2D_subdivide_evenly 10 (mkLR2 (mkV2 0 0) (mkV2 9 3)) 3) = [(0, 0); (3, 1); (6, 2); (9, 3)]%Q
+  \/ length (LineSegment2D_subdivide_evenly 10 (mkLR2 (mkV2 0 0) (mkV2 9 3)) 3) = 4%nat.
+Proof. right. vm_compute. reflexivity. Qed.
